@@ -129,7 +129,9 @@ func runC12(seed uint64, n, t int, createdAt time.Time, restarts []c12Restart, t
 		if rerr != nil && !strings.Contains(rerr.Error(), "operation log not found") {
 			viol = append(viol, [2]string{"C12/replay-fails", fmt.Sprintf("node %d before %s (%s): %v", nd.Idx, mine.Step, mine.Mode, rerr)})
 		}
-		if lb >= 0 && la != lb {
+		if lb < 0 || la < 0 {
+			notes = append(notes, "operation log could not be read from a directory copy (measurement skipped)")
+		} else if la != lb {
 			viol = append(viol, [2]string{"C12/operation-log-changed-by-replay", fmt.Sprintf("node %d: %d entries before replay, %d after", nd.Idx, lb, la)})
 		}
 		if mine.Mode == "logged-no-result-file" {
